@@ -265,7 +265,7 @@ pub fn probe(func: &str) -> bool {
     std::panic::set_hook(Box::new(|_| {}));
     match func {
         "bsplev_single_f64" | "bspldnev_single_f64" => probe_basis(func) || probe_solve(func),
-        "bsplmatrix" | "csolve" | "ppdnev_single" | "ppdnev_single_dual" | "ppdnev_single_dual2" | "bspldnev_single_dual" | "bspldnev_single_dual2" | "mapped_value" => probe_solve(func) || probe_basis(func),
+        "bsplmatrix" | "csolve" | "ppdnev_single" | "ppdnev_single_dual" | "ppdnev_single_dual2" | "bspldnev_single_dual" | "bspldnev_single_dual2" | "bsplev_single_dual" | "bsplev_single_dual2" | "mapped_value" => probe_solve(func) || probe_basis(func),
         _ => false,
     }
 }
